@@ -373,7 +373,7 @@ def compare_code(mo, io, a):
         return False
     if not h.get("reprs"):
         return False  # the repr() of some str/bytes leaf is not what the model's pyReprStr/pyReprBytes computes
-    if all(h.get(k) for k in ("wf", "dom", "renders")):
+    if all(h.get(k) for k in ("wf", "dom", "renders", "nesting")):
         STATS["claimed"] += 1
         STATS["claimed_equal"] += io["ok"]["outcome"] == "equal"
         if io["ok"]["outcome"] != "equal" or mo["ok"]["outcome"] != "equal":
@@ -774,6 +774,28 @@ def hand_cases():
         if n:
             case(WO, inst(Outer, x=member(ODD_ENUM, n)))
     case(WO, inst(Outer, x=J([1]), items={"t": "list", "items": [member(ODD_ENUM, "ok"), member(ODD_ENUM, "a-b")]}))
+    # nesting around the parser's limit of 200 open brackets: lists, and a chain of models holding lists of models
+    def nest(n, leaf):
+        v = leaf
+        for _ in range(n):
+            v = {"t": "list", "items": [v]}
+        return v
+
+    NodeC = model(MOD_A, ["Node"], [fld("items", df([])), fld("v", dv(None))])
+
+    def chain(n):
+        v = inst(NodeC, v=J(1))
+        for _ in range(n):
+            v = inst(NodeC, items={"t": "list", "items": [v]})
+        return v
+
+    for n in (50, 150, 199, 200, 201, 230):
+        case([], nest(n, J(1)), "v")
+    case([], nest(198, J([(1, {2})])), "v")
+    case([], nest(199, J(frozenset({1}))), "v")
+    case([], nest(198, J(frozenset({1}))), "v")
+    for n in (40, 98, 99, 100, 101):
+        case([NodeC], chain(n))
     # same class name in two modules
     A1 = model(MOD_A, ["Address"], [fld("x", dv(None)), fld("y", dv(0))])
     A2 = model(MOD_B, ["Address"], [fld("x", dv(None)), fld("w", dv(0))])
@@ -1306,6 +1328,9 @@ def covered(a, msg):
     *and* the property holds once exactly those members are replaced by None -
     so nothing else is wrong with it."""
     try:
+        hit = covered_nesting(a, msg)
+        if hit:
+            return hit
         if not has_odd_enum(a):
             return None
 
@@ -1326,6 +1351,38 @@ def covered(a, msg):
     except Exception:  # noqa: BLE001
         return None
     return None
+
+
+def bracket_depth(text):
+    """most brackets open at once in the source text, string literals skipped
+    (own scanner: the rendered literals are single-line, quote-delimited)"""
+    depth = best = 0
+    i, n = 0, len(text)
+    while i < n:
+        c = text[i]
+        if c in "'\"":
+            i += 1
+            while i < n and text[i] != c:
+                i += 2 if text[i] == "\\" else 1
+        elif c in "([{":
+            depth += 1
+            best = max(best, depth)
+        elif c in ")]}":
+            depth -= 1
+        i += 1
+    return best
+
+
+PARSER_LIMIT = 200
+
+
+def covered_nesting(a, msg):
+    """the rendered source nests brackets deeper than CPython's tokenizer allows"""
+    if "too many nested parentheses" not in msg:
+        return None
+    b, obj = real_case(a)
+    text = PycodeSerializer().render(obj, a.get("var", "obj"))
+    return "C18-nesting-limit" if bracket_depth(text) > PARSER_LIMIT else None
 
 
 def gen_oracle(rng, tier):
@@ -1361,7 +1418,23 @@ def finding_enum_member_name():
     return outs == ["exc:AttributeError", "exc:SyntaxError", "equal"], "/".join(outs)
 
 
-FINDINGS = {"C18-enum-member-name": finding_enum_member_name}
+def finding_nesting_limit():
+    def nest(n):
+        v = 1
+        for _ in range(n):
+            v = [v]
+        return v
+
+    outs = []
+    for n in (200, 201):
+        obj = nest(n)
+        text = PycodeSerializer().render(obj)
+        outcome, detail, _ = run_source(text, "obj", obj)
+        outs.append(outcome + ("" if outcome == "equal" else ":" + detail[:60]))
+    return outs[0] == "equal" and outs[1].startswith("exc:SyntaxError") and "too many nested" in outs[1], " / ".join(outs)
+
+
+FINDINGS = {"C18-enum-member-name": finding_enum_member_name, "C18-nesting-limit": finding_nesting_limit}
 
 _RULE = (
     "hand-picked cases (every repr_object/literal_value/build_imports branch, each remaining and each repaired defect, cross-type default elision), "
